@@ -12,6 +12,9 @@ ERR_TAGS = ["extUnknownModule", "extUnknownPort", "inputType", "inputIntegrity",
             "wireIntegrity", "multipleValues", "cannotResolve", "keyError", "handlerRaised"]
 
 
+EXC = ["RuntimeError", "TypeError", "ValueError", "KeyError", "AttributeError", "WiringError", "ZeroDivisionError"]
+
+
 class Runaway(Exception):
     """raised by a scripted handler that is invoked absurdly often (a scheduler that loops)"""
 
@@ -32,7 +35,8 @@ class C16(Prop):
     thorough_budget = 60000
     all_branches = (["mod:ok", "mod:moduleExists", "wire:ok", "wire:unknownOutputPort", "wire:unknownInputPort",
                      "wire:typeMismatch", "wire:integrityViolation", "rawwire", "handler:ret", "handler:retnone",
-                     "handler:raise", "handler:unknownModule", "ext", "caps", "flow:ok", "flow:typeMismatch",
+                     "handler:raise", "handler:xraise", "handler:retd", "handler:retv", "handler:unknownModule", "ext", "caps",
+                     "caps2", "capsmut", "speccaps", "share:ok", "share:moduleExists", "mod2:ok", "flow:ok", "flow:typeMismatch",
                      "flow:integrityViolation", "exec:ok"] + ["exec:" + t for t in ERR_TAGS])
     assumptions = [
         "handlers return a dict (or None) of raw or TypedValue entries, or raise; they do not mutate the dict they are "
@@ -138,6 +142,12 @@ class C16(Prop):
             if r < (0.03 if not wild else 0.1):
                 lines.append(f"handler {m} raise")
                 continue
+            xr = None
+            if r < (0.08 if not wild else 0.18) or (not ins[m] and rng.random() < 0.08):
+                # an adversary that raises an exception of some class, with or without message, at its first
+                # invocation of an execute() only or always, callable with one argument / a default / *args
+                xr = (f"xraise {rng.choice(EXC)} {rng.randrange(2)} {rng.choice(['once', 'always'])} "
+                      f"{rng.choice(['1', 'd', 'v'])}")
             ent = []
             for p, (dt, il) in outs[m]:
                 x = rng.random()
@@ -156,7 +166,8 @@ class C16(Prop):
                 ent.pop(rng.randrange(len(ent)))              # missing key
             elif y < (0.02 if not wild else 0.1):
                 ent.append(f"{rng.randrange(3, 6)}:raw:0")   # extra key
-            lines.append(f"handler {m} ret " + " ".join(ent))
+            kind = xr if xr else rng.choice(["ret", "ret", "ret", "retd", "retv"])
+            lines.append(f"handler {m} {kind} " + " ".join(ent))
         if rng.random() < 0.02:
             lines.append("handler 9 ret")
         # external inputs
@@ -183,10 +194,72 @@ class C16(Prop):
         lines.append(f"exec {show_bool(not e)}")
         if rng.random() < 0.15:
             lines.append("exec d")                            # enforce_static_checks left at its default
+        if rng.random() < 0.3:
+            lines += self._growth_history(rng, names, outs)
         lines.append("caps")
+        if rng.random() < 0.35:
+            lines += self._caps_history(rng, names)
         if rng.random() < 0.2:
             lines.append(f"flow {rng.randrange(nD)} {rng.randrange(nI)} {rng.randrange(nD)} {rng.randrange(nI)}")
         return {"lines": lines, "note": "wild" if wild else "mostly-valid"}
+
+    def _growth_history(self, rng, names, outs):
+        """the SAME executor is used again after the diagram was edited: modules added (with/without outputs, handler,
+        source), wires added, handlers registered late"""
+        out = []
+        fresh = [7, 8]
+        srcs = [(m, p, t) for m in names for p, t in outs[m]]
+        for _ in range(rng.choice([1, 1, 2, 3])):
+            x = rng.random()
+            if fresh and x < 0.7:
+                n = fresh.pop(0)
+                shape = rng.choice(["out", "out", "out+h", "in", "in+wire", "in+ext", "bare"])
+                if shape.startswith("out"):
+                    out.append(self._mod_line(n, [], [(0, (rng.randrange(max(self.nD, 1)), rng.randrange(max(self.nI, 1))))], [n % max(self.nC, 1)]))
+                    if shape == "out+h":
+                        out.append(f"handler {n} ret 0:raw:{n}")
+                elif shape.startswith("in"):
+                    if srcs and shape == "in+wire":
+                        a, q, (dt, il) = rng.choice(srcs)
+                        out.append(self._mod_line(n, [(0, (dt, rng.randrange(il + 1)))], [], []))
+                        out.append(f"wire {a} {q} {n} 0")
+                    else:
+                        out.append(self._mod_line(n, [(0, (0, 0))], [], []))
+                        if shape == "in+ext":
+                            out.append(f"ext {n} 0 raw 3")
+                else:
+                    out.append(self._mod_line(n, [], [], []))
+            elif x < 0.85 and srcs:
+                a, q, _ = rng.choice(srcs)
+                b = rng.choice(names)
+                out.append(f"{rng.choice(['wire', 'rawwire'])} {a} {q} {b} {rng.randrange(3)}")
+            else:
+                out.append(f"handler {rng.choice(names)} ret 0:raw:1")
+            out.append(f"exec {rng.choice(['1', '0', 'd'])}")
+        return out
+
+    def _caps_history(self, rng, names):
+        """repeated capability queries, caller-side mutation of the returned sets, ModuleSpec objects shared with a
+        second diagram, fresh modules in the second diagram"""
+        out = []
+        cs = lambda: " ".join(map(str, rng.sample(range(self.nC), rng.choice([1, 1, 2, 3])))) if self.nC else ""
+        for _ in range(rng.choice([2, 3, 4, 6, 8])):
+            x = rng.random()
+            if x < 0.25:
+                out.append("caps")
+            elif x < 0.45:
+                out.append("caps2")
+            elif x < 0.65:
+                out.append(f"share {rng.choice(names)}")
+            elif x < 0.85:
+                op = rng.choice(["sub", "sub", "add", "clear"])
+                out.append(f"capsmut {rng.choice([1, 1, 2])} {op} {cs() if op != 'clear' else ''}".strip())
+            elif x < 0.93:
+                out.append(f"speccaps {rng.choice(names)}")
+            else:
+                out.append(self._mod_line(rng.choice([7, 8]), [], [], rng.sample(range(self.nC), rng.choice([0, 1, 2])) if self.nC else []).replace("mod ", "mod2 ", 1))
+        out += ["caps", "caps2"]
+        return out
 
     def generate(self, rng, tier, n):
         for i in range(n):
@@ -257,6 +330,54 @@ class C16(Prop):
         spaces.append({"name": ("three modules (in+out each)" if tier == "quick" else "three modules, every in/out shape")
                        + ", every subset of the possible wires" + ("" if tier == "quick" else ", both external-input policies"),
                        "cases": cases})
+        # F: one executor, executed, then the diagram is edited and executed again (every sequence of <= 2 edits)
+        edits = [["mod 5 I O 0:0:1 C"], ["mod 5 I O 0:0:1 C", "handler 5 ret 0:raw:1"], ["mod 5 I 0:0:0 O C"],
+                 ["mod 5 I 0:0:0 O C", "wire 0 0 5 0"], ["mod 5 I 0:0:0 O C", "ext 5 0 raw 1"], ["mod 5 I O C"],
+                 ["rawwire 0 0 1 0"], ["wire 0 0 1 0"], ["mod 6 I O 0:0:0 C"], ["handler 6 ret 0:raw:2"],
+                 ["ext 1 0 raw 2"]]
+        base = ["mod 0 I O 0:0:1 C 0", "mod 1 I 0:0:0 O C 1", "wire 0 0 1 0", "handler 0 ret 0:raw:4"]
+        cases = []
+        for first in (["exec 1"], []):
+            for k in (1, 2):
+                for seq in itertools.product(edits, repeat=k):
+                    lines = base + first
+                    for e in seq:
+                        lines = lines + e + ["exec 1"]
+                    cases.append({"lines": lines, "note": "executor reused after diagram edits"})
+        spaces.append({"name": "one executor: execute, then every sequence of <= 2 diagram edits (module with/without outputs, "
+                               "handler, source; duplicate wire; late handler; competing external) each followed by execute",
+                       "cases": cases})
+        # D: a source module (no inputs) and a module with an input, each with every raising adversary
+        cases = []
+        for cls in EXC:
+            for msg in (0, 1):
+                for mode in ("once", "always"):
+                    for sig in ("1", "d", "v"):
+                        for tgt in (0, 1):
+                            cases.append({"lines": ["mod 0 I O 0:0:1 C 0", "mod 1 I 0:0:1 O 0:0:1 C 1", "mod 2 I 0:0:0 O C",
+                                                    "wire 0 0 1 0", "wire 1 0 2 0",
+                                                    f"handler {tgt} xraise {cls} {msg} {mode} {sig} 0:raw:4",
+                                                    f"handler {1 - tgt} {'retd' if sig == 'd' else 'retv' if sig == 'v' else 'ret'} 0:raw:5",
+                                                    "exec 1", "exec 1"], "note": "raising adversaries"})
+        spaces.append({"name": "handlers raising each of %d exception classes x message/no message x first-invocation-only/"
+                               "always x call signature (1 arg, default, *args), on a source module and on an inner module"
+                               % len(EXC), "cases": cases})
+        # E: capability histories over three specs {0}, {1,2}, {} in every dict order: every sequence of <= 3 steps
+        steps = ["caps", "caps2", "share 0", "share 1", "share 2", "capsmut 1 sub 0", "capsmut 1 sub 1 2", "capsmut 1 add 5",
+                 "capsmut 2 sub 0", "capsmut 1 clear", "mod2 7 I O C 3"]
+        specs = {0: "mod 0 I O C 0", 1: "mod 1 I O C 1 2", 2: "mod 2 I O C"}
+        cases = []
+        for perm in itertools.permutations([0, 1, 2]):
+            for k in (1, 2, 3):
+                for seq in itertools.product(steps, repeat=k):
+                    if k == 3 and tier == "quick":
+                        continue
+                    cases.append({"lines": [specs[i] for i in perm] + list(seq) + ["caps", "caps2", "speccaps 0", "speccaps 1",
+                                                                                    "speccaps 2"],
+                                  "note": "capability histories"})
+        spaces.append({"name": "capability histories: three specs in every dict order, every sequence of <= 3 steps over "
+                               "{query, query second diagram, share a spec, caller mutates the returned set, fresh module}",
+                       "cases": cases})
         return spaces
 
     # --- implementation -----------------------------------------------------------------------------------
@@ -310,6 +431,8 @@ class C16(Prop):
     def run_impl(self, case):
         W, R = self.W, self.R
         d = W.WiringDiagram()
+        d2 = W.WiringDiagram()       # may share ModuleSpec objects with d
+        last_caps: dict = {}         # the set objects most recently returned by required_capabilities()
         ex = R.DiagramExecutor(d)
         ext: dict = {}
         calls: list = []
@@ -319,14 +442,23 @@ class C16(Prop):
         unm = lambda s: int(s[1:])
         in_range = lambda dt, il: 0 <= dt < self.nD and 0 <= il < self.nI
 
-        def mk_handler(n, kind, entries):
-            def h(inputs):
+        excs = {"WiringError": W.WiringError}
+
+        def mk_handler(n, kind, entries, fail=None, sig="1"):
+            def body(inputs):
+                inputs = inputs or {}
                 snap = {unm(p): self._tv(tv) for p, tv in inputs.items()}
                 calls.append((n, snap))
                 if len(calls) > 200:
                     raise Runaway()
                 if kind == "raise":
                     raise RuntimeError("handler")
+                if fail is not None:
+                    cls, msg, mode = fail
+                    nth = sum(1 for m, _ in calls if m == n)      # invocations of this handler in this execute()
+                    if mode == "always" or nth == 1:
+                        c = excs.get(cls) or getattr(__import__("builtins"), cls)
+                        raise c("boom") if msg else c()
                 if kind == "retnone":
                     return None
                 s = sum(tv.value for tv in inputs.values())
@@ -339,6 +471,15 @@ class C16(Prop):
                     else:
                         out[pname(p)] = R.TypedValue(v.data_type, v.integrity, (3 * s + v.value) % 1000)
                 return out
+            if sig == "d":
+                def h(inputs=None):
+                    return body(inputs)
+            elif sig == "v":
+                def h(*args):
+                    return body(args[0] if args else None)
+            else:
+                def h(inputs):
+                    return body(inputs)
             return h
 
         for line in case["lines"]:
@@ -346,14 +487,14 @@ class C16(Prop):
             x = None
             try:
                 op = t[0]
-                if op == "mod":
+                if op in ("mod", "mod2"):
                     rest = t[2:]
                     iI, iO, iC = rest.index("I"), rest.index("O"), rest.index("C")
                     pp = lambda ts: {pname(int(a)): self._pt(int(b), int(c)) for a, b, c in (z.split(":") for z in ts)}
                     spec = W.ModuleSpec(mname(int(t[1])), inputs=pp(rest[iI + 1:iO]), outputs=pp(rest[iO + 1:iC]),
                                         capabilities={self.CAP[int(c)] for c in rest[iC + 1:]})
                     try:
-                        d.add_module(spec)
+                        (d if op == "mod" else d2).add_module(spec)
                         o = "ok"
                     except Exception as e:
                         o = self._exc(e)
@@ -371,7 +512,15 @@ class C16(Prop):
                 elif op == "handler":
                     n, kind = int(t[1]), t[2]
                     entries = []
-                    for z in t[3:]:
+                    fail, sig = None, "1"
+                    rest_h = t[3:]
+                    if kind == "xraise":
+                        if t[3] not in EXC or t[5] not in ("once", "always") or t[6] not in ("1", "d", "v"):
+                            raise ValueError
+                        fail, sig, rest_h = (t[3], t[4] == "1", t[5]), t[6], t[7:]
+                    elif kind in ("retd", "retv"):
+                        sig = kind[-1]
+                    for z in rest_h:
                         f = z.split(":")
                         if len(f) == 3 and f[1] == "raw":
                             entries.append((int(f[0]), int(f[2])))
@@ -380,7 +529,7 @@ class C16(Prop):
                     if kind not in ("raise", "retnone"):
                         kind = "ret"
                     try:
-                        ex.register_module(mname(n), mk_handler(n, kind, entries))
+                        ex.register_module(mname(n), mk_handler(n, kind, entries, fail, sig))
                         o = "ok"
                     except Exception as e:
                         o = self._exc(e)
@@ -415,10 +564,43 @@ class C16(Prop):
                         x.update(status="ok", order=order, mods=mods)
                         o = (f"ok order=[{','.join(map(str, order))}] calls={cstr} mods=["
                              + ";".join(f"{m}<{self._show_tvs(i)}|{self._show_tvs(oo)}>" for m, i, oo in mods) + "]")
-                elif op == "caps":
+                elif op in ("caps", "caps2") and len(t) == 1:
                     try:
-                        r = d.required_capabilities()
+                        r = (d if op == "caps" else d2).required_capabilities()
+                        last_caps[1 if op == "caps" else 2] = r
                         o = "[" + ",".join(map(str, sorted(self.CAP.index(c) for c in r))) + "]"
+                    except Exception as e:
+                        o = self._exc(e)
+                elif op == "capsmut":
+                    obj = last_caps.get(int(t[1]))
+                    cs = {self.CAP[int(c)] for c in t[3:]}
+                    try:
+                        if obj is not None:
+                            if t[2] == "sub":
+                                obj -= cs
+                            elif t[2] == "add":
+                                obj |= cs
+                            elif t[2] == "clear":
+                                obj.clear()
+                            else:
+                                raise ValueError
+                        o = "ok"
+                    except ValueError:
+                        raise
+                    except Exception as e:
+                        o = self._exc(e)
+                elif op == "speccaps":
+                    spec = d.modules.get(mname(int(t[1])))
+                    if spec is None:
+                        raise ValueError
+                    o = "[" + ",".join(map(str, sorted(self.CAP.index(c) for c in spec.capabilities))) + "]"
+                elif op == "share":
+                    spec = d.modules.get(mname(int(t[1])))
+                    if spec is None:
+                        raise ValueError
+                    try:
+                        d2.add_module(spec)
+                        o = "ok"
                     except Exception as e:
                         o = self._exc(e)
                 elif op == "flow":
@@ -456,6 +638,7 @@ class C16(Prop):
     def oracle(self, case, obs, extra):
         out = []
         V = lambda c, e, o, i: out.append(Violation(c, e, str(o)[:300], i))
+        mods2: dict = {}         # second diagram: name -> declared capability set (the harness's own record)
         mods: dict = {}          # name -> (inputs {p: (dt, il)}, outputs {p: (dt, il)}, caps)
         wires: list = []         # (a, p, b, q, via_connect)
         handlers: dict = {}      # name -> ("raise" | "retnone" | "ret", [(port, None | (dt, il))])
@@ -465,12 +648,33 @@ class C16(Prop):
             if o == "bad-op":
                 continue
             op = t[0]
-            if op == "mod":
+            if op == "mod2":
+                if o == "ok":
+                    mods2[int(t[1])] = frozenset(int(c) for c in t[t.index("C") + 1:])
+                elif o != "raise:WiringError":
+                    V("only_wiring_error", "ok or WiringError from add_module", o, idx)
+            elif op == "share":
+                if o == "ok" and int(t[1]) in mods:
+                    mods2[int(t[1])] = frozenset(mods[int(t[1])][2])
+                elif o not in ("ok", "raise:WiringError"):
+                    V("only_wiring_error", "ok or WiringError from add_module", o, idx)
+            elif op == "caps2":
+                want = sorted(set().union(*mods2.values())) if mods2 else []
+                if o != "[" + ",".join(map(str, want)) + "]":
+                    V("capabilities_union", f"{want} (union of the declared sets of the second diagram's modules)", o, idx)
+            elif op == "speccaps":
+                if int(t[1]) in mods:
+                    want = sorted(mods[int(t[1])][2])
+                    if o != "[" + ",".join(map(str, want)) + "]":
+                        V("capabilities_union", f"module {t[1]} still declares {want}", o, idx)
+            elif op == "capsmut":
+                pass
+            elif op == "mod":
                 if o == "ok":
                     rest = t[2:]
                     iI, iO, iC = rest.index("I"), rest.index("O"), rest.index("C")
                     pp = lambda ts: {int(a): (int(b), int(c)) for a, b, c in (z.split(":") for z in ts)}
-                    mods[int(t[1])] = (pp(rest[iI + 1:iO]), pp(rest[iO + 1:iC]), {int(c) for c in rest[iC + 1:]})
+                    mods[int(t[1])] = (pp(rest[iI + 1:iO]), pp(rest[iO + 1:iC]), frozenset(int(c) for c in rest[iC + 1:]))
                 elif o != "raise:WiringError":
                     V("only_wiring_error", "ok or WiringError from add_module", o, idx)
             elif op == "wire":
@@ -490,7 +694,7 @@ class C16(Prop):
             elif op == "handler":
                 if o == "ok":
                     ent = []
-                    for z in t[3:]:
+                    for z in (t[7:] if t[2] == "xraise" else t[3:]):
                         f = z.split(":")
                         if len(f) == 3 and f[1] == "raw":
                             ent.append((int(f[0]), None))
@@ -499,7 +703,10 @@ class C16(Prop):
                     first = {}
                     for p, v in ent:
                         first.setdefault(p, v)
-                    handlers[int(t[1])] = (t[2] if t[2] in ("raise", "retnone") else "ret", first)
+                    if t[2] == "xraise":
+                        handlers[int(t[1])] = ("raise", first, t[3])
+                    else:
+                        handlers[int(t[1])] = (t[2] if t[2] in ("raise", "retnone") else "ret", first, "RuntimeError")
             elif op == "ext":
                 ext[(int(t[1]), int(t[2]))] = None if t[3] == "raw" else (int(t[4]), int(t[5]))
             elif op == "caps":
@@ -628,7 +835,7 @@ class C16(Prop):
         # the run raised
         allowed = {"raise:WiringError"}
         if any(handlers.get(m, ("",))[0] == "raise" for m, _ in calls[-1:]):
-            allowed = {"raise:RuntimeError"}
+            allowed = {"raise:" + handlers[calls[-1][0]][2]}    # the handler's own exception propagates
         if dangling:
             allowed.add("raise:KeyError")
         if st not in allowed:
